@@ -267,8 +267,12 @@ func ruleWritePathErrors(c *Check, rule string) {
 	c.Rule(rule, "no function on the output write path (handler Write implementations and every handlers/output/caching helper they reach) drops an error on the way to a success return", 10)
 	h := c.P.Type("output/handlers", "Handler")
 	roots := methodImpls(c, h, "Write")
+	roots = append(roots, methodImpls(c, h, "Hash")...)
 	if wo := c.P.Func("output", "Registry", "WriteOutputs"); wo != nil {
 		roots = append(roots, wo)
+	}
+	if nc := c.P.Func("output", "Registry", "GetNoCacheOutputHash"); nc != nil {
+		roots = append(roots, nc)
 	}
 	reach := c.G.ReachableFuncs(roots, nil)
 	var fns []*ssa.Function
@@ -276,7 +280,9 @@ func ruleWritePathErrors(c *Check, rule string) {
 		if !reach[fn] {
 			continue
 		}
-		if engine.InPackage(fn, "output") || engine.InPackage(fn, "caching") {
+		// the hashing helpers the handlers reach are part of the path: one that tolerates a missing file
+		// (as the input hasher does for inputs) turns a missing declared output into a success
+		if engine.InPackage(fn, "output") || engine.InPackage(fn, "caching") || engine.InPackage(fn, "hashing") {
 			fns = append(fns, fn)
 		}
 	}
